@@ -38,16 +38,17 @@ func c07Generic(w *run.W, fam string, pr impl.Project, e *impl.ErrObs, wantTrace
 			cls = "end-of-input"
 		}
 		w.Violation("C07", "index-outside-file:"+cls, fmt.Sprintf("[%s] error %q has index %d in %q which has %d bytes (line %d, column %d)\n%s", fam, e.Msg, e.Index, e.File, len(content), e.Line, e.Col, trunc(showProject(pr), 700)), detail)
-		return
-	}
-	line, col, quote := ref.Locate(content, int(e.Index))
-	if int(e.Line) != line || int(e.Col) != col {
-		w.Violation("C07", "line-column", fmt.Sprintf("[%s] error %q at index %d of %q reports line %d column %d; the index is on line %d column %d\n%s", fam, e.Msg, e.Index, e.File, e.Line, e.Col, line, col, trunc(showProject(pr), 700)), detail)
-		return
-	}
-	if e.Quote != quote {
-		w.Violation("C07", "quote", fmt.Sprintf("[%s] error %q quote %q, the line reads %q\n%s", fam, e.Msg, e.Quote, quote, trunc(showProject(pr), 700)), detail)
-		return
+		// line/column/quote cannot be judged for such an index; the include trace still can
+	} else {
+		line, col, quote := ref.Locate(content, int(e.Index))
+		if int(e.Line) != line || int(e.Col) != col {
+			w.Violation("C07", "line-column", fmt.Sprintf("[%s] error %q at index %d of %q reports line %d column %d; the index is on line %d column %d\n%s", fam, e.Msg, e.Index, e.File, e.Line, e.Col, line, col, trunc(showProject(pr), 700)), detail)
+			return
+		}
+		if e.Quote != quote {
+			w.Violation("C07", "quote", fmt.Sprintf("[%s] error %q quote %q, the line reads %q\n%s", fam, e.Msg, e.Quote, quote, trunc(showProject(pr), 700)), detail)
+			return
+		}
 	}
 	if checkTrace {
 		want := e.Msg
@@ -123,6 +124,7 @@ var c07Faults = []struct {
 	{"rule-error", "PASTE @undefinedMacro", 0, "macro not found", false},
 	{"include-missing", "INCLUDE nofile.jst", 0, "does not exist", false},
 	{"duplicate-by-double-inclusion", "TYPE @dupT any", 0, "has already been declared before", true},
+	{"unclosed-parenthesis-at-end-of-file", "GET /p\n(", 0, "parenthesis is not closed", false},
 }
 
 func workC07Graphs(w *run.W) {
@@ -197,7 +199,9 @@ func workC07Graphs(w *run.W) {
 								if i == ff && k == pos {
 									lines = append(lines, "# fault follows")
 									faultLine = len(lines) + 1
-									lines = append(lines, "  "+fk.Line)
+									for _, fl := range strings.Split(fk.Line, "\n") {
+										lines = append(lines, "  "+fl)
+									}
 								}
 								if k < len(graph[i]) {
 									for q := 0; q < k+i; q++ {
@@ -264,6 +268,10 @@ func c07GraphCase(w *run.W, pr impl.Project, dir, fname, msg string, second bool
 	if !strings.Contains(b.Err.Msg, msg) {
 		w.Violation("C07", "other-error:"+fname, fmt.Sprintf("expected the injected %s (%q), got %q at %s:%d\n%s", fname, msg, b.Err.Msg, b.Err.File, b.Err.Line, showProject(pr)), map[string]any{"project": pr})
 		return
+	}
+	eofFault := strings.Contains(fname, "end-of-file")
+	if eofFault {
+		fline = int(b.Err.Line) // reported at the end of the file (see the end-of-input finding); only the file and the trace are judged
 	}
 	if b.Err.File != ffile || int(b.Err.Line) != fline {
 		w.Violation("C07", "fault-location:"+fname, fmt.Sprintf("error %q located at %s:%d, the fault is at %s:%d\n%s", b.Err.Msg, b.Err.File, b.Err.Line, ffile, fline, showProject(pr)), map[string]any{"project": pr})
